@@ -345,3 +345,53 @@ def _(a):
 
 cnv.note("names are concrete strings: all sequences of up to 3 prior declarations over "
          "{x, x_1, x_2, y} with arbitrary scope pushes (bounded in length)")
+
+
+# ----------------------------------------------------------------------------
+# get_strides on a derived window (created by a window statement / expression)
+#
+# Dimension i of a window over x with index pattern idx is the i-th *interval*
+# dimension of x; its stride is x's stride in that dimension.  A result entry
+# is either the run-time field CIR.Stride(name, i) (filled by
+# window_struct_fields with exactly that stride, see the C-text engine) or a
+# constant, which must then equal that stride given the stride assertions.
+
+cgs = contract("C02", F, "Compiler.get_strides", name=F + "::Compiler.get_strides[derived window]")
+
+@cgs.inputs
+def _(g):
+    import itertools
+    x, y = Sym("x"), Sym("y")
+    rank = 3
+    pats = [p for p in itertools.product("PI", repeat=rank) if "I" in p]
+    pat = g.choose(pats, "window pattern")
+    dims = [LoopIR.Const(8, T.int, SRC) for _ in range(rank)]
+    src_t = T.Tensor(dims, True, T.f32)
+    idx, kept = [], []
+    for d, k in enumerate(pat):
+        if k == "P":
+            idx.append(LoopIR.Point(LoopIR.Const(1, T.int, SRC), SRC))
+        else:
+            idx.append(LoopIR.Interval(LoopIR.Const(0, T.int, SRC), LoopIR.Const(4, T.int, SRC), SRC))
+            kept.append(d)
+    as_t = T.Tensor([LoopIR.Const(4, T.int, SRC) for _ in kept], True, T.f32)
+    wt = T.Window(src_t, as_t, x, idx)
+    # stride assertions on the source: any subset of its dimensions
+    known = {}
+    for d in range(rank):
+        if g.choose([False, True], f"assert stride(x,{d})"):
+            c = g.int(f"sx{d}")
+            known[(x, d)] = CIR.Const(c)
+            g.assume(stride_val(x, d) == c)
+    # the window's run-time stride fields hold the source's strides of the kept dims
+    tab = g.ctx.ghost.setdefault("stride", {})
+    for i, d in enumerate(kept):
+        tab[(id(y), i)] = stride_val(x, d)
+    return {"self": mk_compiler(g, known), "name": y, "typ": wt, "__ghost__": {"kept": kept, "x": x}}
+
+@cgs.ensures("every stride of the window equals the source's stride of the corresponding interval dimension")
+def _(a):
+    ok = [len(a.result) == len(a.ghost.kept)]
+    for i, d in enumerate(a.ghost.kept):
+        ok.append(cev(a.result[i]) == stride_val(a.ghost.x, d))
+    return And(ok)
